@@ -81,8 +81,8 @@ Definition lib_ret (x : xcomp) (p : nat) (n : Z) : rmode :=
   match x with
   | Old NackNoCopy | Old JBPush => RRef              (* documented exceptions *)
   | Old DumpReceiverRtcp => RRef                     (* logRTCPPackets(pkts, attr): the parsed packets go to the logger goroutine as they are *)
-  | DumpSenderRtcp => RRef                           (* logRTCPPackets(pkts, attributes): the CALLER'S packets go to the logger goroutine (known finding) *)
-  | AttrLeakyBucket | AttrDumpSender => RRef         (* the caller's attributes map is kept (known finding) *)
+  | DumpSenderRtcp => RRef                           (* logRTCPPackets(pkts, attributes): the CALLER'S packets go to the logger goroutine (observation outside the property text) *)
+  | AttrLeakyBucket | AttrDumpSender => RRef         (* the caller's attributes map is kept (observation outside the property text) *)
   | Old NackCopy | Old NackRtx                       (* PacketFactoryCopy.NewPacket: if len(payload) > maxPayloadLen { return nil, io.ErrShortBuffer } *)
   | Old LeakyBucket =>                               (* LeakyBucketPacer.Write: if len(payload) > maxPayloadLen { return 0, io.ErrShortBuffer } *)
       if (Nat.eqb p payload_part) && (n >? pool_payload_len) then RReject else RVal
